@@ -59,3 +59,28 @@ PROPS = {
         "assumptions": [],
     },
 }
+
+TB_STREAM = [
+    "Coq 8.16.1 kernel and its vm_compute evaluator (no native_compute)",
+    "hand model JL.model.Stream of importer.go / exporter.go / streamer.go (function for function, with the F2 `failed` flag), tied to the real code by the stream `stream` (every run of the real Stream() is replayed on the model inside coqc)",
+    "executable specification JL.std.GoScanner of bufio.Scanner + ScanLines + Buffer(initial, max): chunk-free spec `scan` and operational chunked model `cscan` (related by theorem C07_chunking), both validated against the installed Go's bufio on every run",
+    "reader model: data and error are never returned by the same Read call (n > 0 implies err == nil); the reader's non-EOF error is returned once k bytes were delivered",
+    "get_row / export_row (CreateRowEmpty+UnmarshalJSON, CreateRow+MarshalJSON) are abstract parameters of the theorems; in the correspondence check they are the transcript of the real templates on each line alone",
+    "a processor does not mutate the row it receives (model restriction)",
+    "correspondence harness (/verif/harness) and the Go toolchain that builds it from /repo's working tree with -tags verif (hook NewImporterSized)",
+]
+
+PROPS.update({
+    "C07": {
+        "streams": [{"name": "stream"}],
+        "rule": "stream stream: byte streams of 0-5 lines over 3 fixed (input template, output template) pairs (empty; typed n/s/d with int8 and timestamp outputs; binary/boolean), each line valid / blank / invalid JSON / non-object / template-rejected / padded to length C-3..C+2 of the buffer capacity C = max(initial, max), max in 8..64 and initial in 1..max+4 through NewImporterSized; LF / CRLF / CR-only / no final newline; per stream: 4 processors x random chunking readers (1 byte .. whole stream), reader fault at EVERY offset 0..len x 3 processors, writer fault (accepting 0 / some / all bytes) at EVERY write index x 4 processors, combined faults; plus lines of 64 KiB +-1 with the real NewImporter (thorough tier: 64 KiB, 1 MiB, 10 MiB -2..+1). A case is distinct by (templates, stream, fault offset, sizes, write faults, processor); all are non-trivial (the real Stream() is run).",
+        "trusted_base": TB_STREAM,
+        "assumptions": ["lines are judged against the same templates run on each line ALONE through a fresh importer/exporter (token + LF)"],
+    },
+    "C08": {
+        "streams": [{"name": "stream"}],
+        "rule": "same stream `stream` as C07: reader fault at every byte offset k in [0,len] (line boundaries and 0 included) of every generated stream, writer failing (short writes incl. 0 and all bytes accepted) at every write index, over-long lines (C-3..C+2) at every position, combined with default, tolerant (NoFailureProcessor), fail-on-error and fail-on-n-th-call processors; real 10 MiB limit in the thorough tier.",
+        "trusted_base": TB_STREAM,
+        "assumptions": ["the injected reader error is a distinct sentinel; bufio.ErrTooLong is recognised with errors.Is"],
+    },
+})
